@@ -25,8 +25,9 @@ ZP = ('Lean 4 theorems over the Zipf model (search over any strict total order; 
 TEXT = {
     'C01': dict(technique=WL,
         text='c01_pess / c01_opt: in every reachable state (any number of requests, any interleaving, arbitrary pre-load values, spurious CAS failures) '
-             'no two live grants conflict; c01_word_counts_*: the word is the exact count of live grants. MCSLock: bit-level lemmas + step-exact model + exclusion/torn-read monitors only.',
-        note=TRUST + 'MCS queue invariant not mechanised (DESIGN 5.3, 10).'),
+             'no two live grants conflict; c01_word_counts_*: the word is the exact count of live grants. c01_mcs: the same for every reachable state of the step-faithful MCS model '
+             '(protocol invariant over queue groups, word meanings and node ownership; WordSpecs at regenerated constants by bv_decide).',
+        note=TRUST),
     'C02': dict(technique=WL,
         text='c02_blocked_*: an agent whose acquisition/upgrade step cannot succeed coexists with a live conflicting holder; c02_solo_acquire; c02_quiescent_free_*: no holder => word free. '
              'Fair termination wrapper on paper; dynamic: stuck detection under fair policies + final LockX probe on every lock (found F1, F3).',
@@ -59,14 +60,14 @@ TEXT = {
              'XGuard new_ver bookkeeping by correspondence + XB/XE monitor.',
         note=TRUST),
     'C10': dict(technique=WL,
-        text='c10_no_other_sixx_*: during a SIX/X tenure no other SIX/X grant; c10_no_gap: conversions keep the grant; c10_upgrade_alone_*: upgrade granted only without S holders. MCS by correspondence + monitors.',
+        text='c10_no_other_sixx_*: during a SIX/X tenure no other SIX/X grant; c10_no_gap: conversions keep the grant; c10_upgrade_alone_*: upgrade granted only without S holders; c10_mcs from the MCS protocol invariant.',
         note=TRUST),
     'C11': dict(technique='Lean 4 bit-level lemmas at regenerated MCS constants (bv_decide) + step-faithful executable MCS model tied by correspondence; FIFO monitor on every implementation trace',
         text='c11_tail_word, c11_join_keeps_tail + MCS bit lemmas; arrival order itself is decided by the Lean fifo monitor over implementation events and the step-exact model. PARTIAL: no protocol theorem.',
         note=TRUST + 'MCS protocol invariant not mechanised.'),
-    'C12': dict(technique='Lean 4 bit-level lemmas at regenerated MCS constants (bv_decide) + step-faithful executable MCS model with node accounting tied by correspondence; node monitor',
-        text='c12_unlockS_recycle_test (repaired test = exactly one shared holder and no SIX/X; original test never true), c12_unlockX_recycle_test, …; node alloc/free accounting by monitor (found F2). PARTIAL.',
-        note=TRUST + 'MCS protocol invariant not mechanised.'),
+    'C12': dict(technique='Lean 4 protocol invariant of the step-faithful MCS model (node ownership => no access to freed nodes) + bit-level lemmas at regenerated constants (bv_decide); tie C: correspondence with node accounting; node monitor',
+        text='c12_mcs_no_use_after_free: no step of any reachable execution touches a freed node (node-ownership invariant); c12_unlockS_recycle_test etc.; leak-freedom / node bound by alloc/free accounting monitor (found F2). PARTIAL (second half).',
+        note=TRUST + 'Leak-freedom not yet a theorem.'),
     'C13': dict(technique=WL,
         text='c13_version_result (non-owning result read from a word without X), c13_shared_fallback / c13_cas_from_noX (owning result by CAS from a word with no X). Prepare monitor on traces.',
         note=TRUST),
